@@ -152,8 +152,16 @@ impl Subject for C09 {
         }
         let uses = |m: Metric| self.cfg.rules.iter().any(|r| r.metric == m);
         if uses(Metric::Load) {
-            let th = self.cfg.rules.iter().find(|r| r.metric == Metric::Load).unwrap().threshold;
-            for x in [th, th + 0.25, (th - 0.25).max(0.0)] {
+            // readings around EVERY load rule's threshold (two rules of one metric may differ)
+            let mut xs: Vec<f64> = vec![];
+            for r in self.cfg.rules.iter().filter(|r| r.metric == Metric::Load) {
+                for x in [r.threshold, r.threshold + 0.25, (r.threshold - 0.25).max(0.0)] {
+                    if !xs.contains(&x) {
+                        xs.push(x);
+                    }
+                }
+            }
+            for x in xs {
                 v.push(Op::SetLoad(x));
             }
         }
@@ -161,8 +169,16 @@ impl Subject for C09 {
             v.push(Op::FlipStrategy);
         }
         if uses(Metric::CpuUsage) {
-            let th = self.cfg.rules.iter().find(|r| r.metric == Metric::CpuUsage).unwrap().threshold as f32;
-            for x in [th, th + 0.25, (th - 0.25).max(0.0)] {
+            let mut xs: Vec<f32> = vec![];
+            for r in self.cfg.rules.iter().filter(|r| r.metric == Metric::CpuUsage) {
+                let th = r.threshold as f32;
+                for x in [th, th + 0.25, (th - 0.25).max(0.0)] {
+                    if !xs.contains(&x) {
+                        xs.push(x);
+                    }
+                }
+            }
+            for x in xs {
                 v.push(Op::SetCpu(x));
             }
         }
@@ -286,6 +302,12 @@ pub fn configs(thorough: bool) -> Vec<Cfg> {
     // two rules of the same metric (they share one bucket of the manager's map): the tighter one decides
     for (m, a, b) in [(Metric::Concurrency, 3.0, 1.0), (Metric::InboundQPS, 1.0, 3.0), (Metric::AvgRT, 10.0, 1.0), (Metric::Load, 0.5, 0.0)] {
         v.push(Cfg { rules: vec![RuleCfg { metric: m, bbr: false, threshold: a }, RuleCfg { metric: m, bbr: false, threshold: b }], phase: 1 });
+    }
+    // two rules of the same metric with DIFFERENT strategies: the adaptive one (lower threshold) may
+    // spare a request that the plain one (higher threshold) must still reject
+    for (m, lo, hi) in [(Metric::Load, 0.25, 0.5), (Metric::CpuUsage, 0.5, 1.0)] {
+        v.push(Cfg { rules: vec![RuleCfg { metric: m, bbr: true, threshold: lo }, RuleCfg { metric: m, bbr: false, threshold: hi }], phase: 0 });
+        v.push(Cfg { rules: vec![RuleCfg { metric: m, bbr: false, threshold: hi }, RuleCfg { metric: m, bbr: true, threshold: lo }], phase: 250 });
     }
     // an invalid rule next to a valid one must be ignored
     v.push(Cfg { rules: vec![RuleCfg { metric: Metric::Load, bbr: false, threshold: 2.0 }, RuleCfg { metric: Metric::Concurrency, bbr: false, threshold: 1.0 }], phase: 0 });
